@@ -558,6 +558,13 @@ def run_script(script: dict) -> dict:
                     rec.cal = cal
                     rec.log({"e": "restore"})
                     rec.log(idle_event(rec, cal, base_threads, False))
+                elif kind == "setsched":
+                    from black_it.schedulers.round_robin import RoundRobinScheduler
+
+                    new = [make_sampler(d, 9700 + i) for i, d in enumerate(op[1])]
+                    cal.set_scheduler(RoundRobinScheduler(new))
+                    rec.log({"e": "setsched", "line": op[1]})
+                    rec.log(idle_event(rec, cal, base_threads, False))
                 elif kind == "set":
                     new = [make_sampler(d, 9500 + i) for i, d in enumerate(op[1])]
                     cal.set_samplers(new)
